@@ -518,8 +518,21 @@ func exec(h *rt.H, op string) string {
 	isV := func(s string) bool { return s == "allow" || s == "deny" }
 	if isV(alp) && isV(bpf) && isV(ipt) && !(alp == bpf && bpf == ipt) {
 		sig := "dataplanes-disagree"
-		if c.hasProfilePass() {
-			sig = "profile-pass"
+		if c.hasProfilePass() && alp == bpf {
+			// attribute to the known finding only if app-policy and BPF agree and the SAME state with
+			// every profile pass rule turned into a deny rule (which is what pass means to those
+			// two) makes iptables agree as well
+			d := parseLine(op)
+			for i := range d.Profiles {
+				for j := range d.Profiles[i] {
+					if a := d.Profiles[i][j].Act; a == "pass" || a == "next-tier" {
+						d.Profiles[i][j].Act = "deny"
+					}
+				}
+			}
+			if alpVerdict(d) == alp && bpfVerdict(d) == bpf && iptVerdict(d, false) == alp {
+				sig = "profile-pass"
+			}
 		}
 		h.OracleFail(sig, fmt.Sprintf("implementations disagree on the verdict: app-policy=%s bpf=%s iptables=%s", alp, bpf, ipt), map[string]any{"op": op})
 	}
